@@ -71,8 +71,22 @@ def multisets(n):
 CHUNK = 60
 
 
+# size: columns of hundreds of notes (no ties), the last note of each column a hold / a hit
+LARGE = dict(quick=[("osu", 300), ("bms", 40)], thorough=[("osu", 17), ("osu", 300), ("osu", 2000), ("bms", 300), ("sm", 300), ("qua", 300), ("o2j", 300)])
+
+
+def large_notes(n):
+    """Two columns of n notes each, 100 ms (column 0) and 130 ms (column 1) apart, kinds hit / hold 50 / hold 500 in turn;
+    column 0 ends with a hold, column 1 with a hit."""
+    out = []
+    for i in range(n):
+        out.append((0, 100 * i, (None, 50, 500)[i % 3] if i < n - 1 else 70))
+        out.append((1, 130 * i + 5, (50, None, 500)[i % 3] if i < n - 1 else None))
+    return out
+
+
 def roots(tier, seed):
-    rs = []
+    rs = [dict(large=i) for i in range(len(LARGE[tier]))]
     for pi, (g, n, orders, pal) in enumerate(plan(tier)):
         tot = len(multisets(n))
         for s in range(0, tot, CHUNK):
@@ -84,6 +98,12 @@ _MS = {}
 
 
 def explore(root, tier, ctx):
+    if "large" in root:
+        g, n = LARGE[tier][root["large"]]
+        for order in ("fwd", "rev"):
+            for gap, thr in ((50, 0), (150, 100), (0, 0)):
+                check_one(g, large_notes(n), order, gap, thr, ctx)
+        return
     g, n, orders, pal = plan(tier)[root["plan"]]
     if n not in _MS:
         _MS[n] = multisets(n)
@@ -107,10 +127,11 @@ def expected_sets(notes, gap, thr):
         bycol[n[0]].append(n)
     percol = []
     for c, ns in sorted(bycol.items()):
+        # the admissible processing orders: by time; notes of one time in any order (permutations inside each tie group only)
+        groups = [list(g) for _, g in itertools.groupby(sorted(ns, key=lambda n: n[1]), key=lambda n: n[1])]
         alts = set()
-        for perm in set(itertools.permutations(ns)):
-            if [p[1] for p in perm] != sorted(p[1] for p in perm):
-                continue
+        for parts in itertools.product(*[set(itertools.permutations(g)) for g in groups]):
+            perm = [n for part in parts for n in part]
             res = []
             for i, (cc, t, k) in enumerate(perm):
                 if i == len(perm) - 1:
